@@ -425,6 +425,17 @@ theorem c08_cache (maxDur : Nat) (hmax : 0 < maxDur) (t0 : Nat) (evs : List Ev)
     · exact h3
     · exact absurd rfl (hnf _ hm)
 
+/-- **Cache, as seen from outside**: every verdict handed out is explained by what the directory
+offered at the `IsAdminUser` calls of the history (`blackboxOK`: same value offered for that user at
+some earlier call, less than `maxDur` ago unless a lookup for that user failed less than `maxDur`
+ago; or `false` after a failed lookup). This is the predicate the judge applies to the verdicts of
+the real `IsAdminUser` (instantiated at every prefix of the observed history). -/
+theorem c08_cache_observable (maxDur : Nat) (hmax : 0 < maxDur) (t0 : Nat) (evs : List Ev) :
+    ∀ r ∈ (crun maxDur (CState.init t0) evs).rets,
+      blackboxOK maxDur (crun maxDur (CState.init t0) evs).offered r.t r.user r.verdict = true :=
+  fun r hr => blackbox_of_goodRet (sub_run evs (fun _ h => (by cases h)))
+    (c08_cache_outage maxDur hmax t0 evs r hr)
+
 /-- the lifetime the daemon configures is the property's five minutes -/
 theorem c08_cache_lifetime :
     KM.Gen.c08AdminCacheLifetimes = [5 * 60 * 1000000000] ∧
@@ -560,6 +571,7 @@ theorem c08_helpers :
      ("admincache.put".toList, "{ if c == nil { return } c.mu.Lock() defer c.mu.Unlock() c.data[user] = cacheEntry{IsAdmin: isAdmin, Ts: c.clock.Now()} }".toList),
      ("admincache.isValid".toList, "{ if ts.IsZero() { return false } return c.clock.Now().Sub(ts) < c.maxDuration }".toList),
      ("admincache.New".toList, "{ return newForTesting(maxDuration, kSystemClock) }".toList)] := by
-  rfl
+  unfold KM.Gen.c08Helpers
+  with_reducible rfl
 
 end KM.Admin
